@@ -403,6 +403,8 @@ class Interp:
             return self._materialize_mirror(cell, f)
         if cell.fresh:
             return _MISSING
+        if self.config.get("tree_mode") == "binary" and f in ("left", "right", "parent"):
+            return self._materialize_free(cell, f)
         if f in ("left", "right"):
             g = self.group_of(cell, f".{f}")
             if f in cell.entry:  # group_of may have triggered propagation
@@ -466,7 +468,7 @@ class Interp:
         elif f == "child":
             v = Opaque("unary.child")
         elif f == "id":
-            v = Opaque(f"id{cell.cid}")
+            v = Ident(f"id{cell.cid}")
         elif f in ("_changed", "_rendering_change"):
             v = False
         elif f == "classes":
@@ -479,6 +481,31 @@ class Interp:
             return _MISSING
         self._set_entry(cell, f, v)
         return v
+
+    def _materialize_free(self, cell: Cell, f: str):
+        """Generic binary trees (C14/C15): every node has 0, left-only, right-only or 2 children."""
+        if f in ("left", "right"):
+            i = self.choose(2, f"{f}({cell.cid})", ["absent", "present"])
+            if i == 0:
+                self._set_entry(cell, f, None)
+                return None
+            ch = self.new_cell(cell.kinds, False, "child")
+            ch.updepth = cell.updepth - 1
+            self._set_entry(ch, "parent", Node(cell.cid))
+            self._set_entry(cell, f, Node(ch.cid))
+            return cell.entry[f]
+        opts = ["none"]
+        if cell.updepth < self.max_updepth:
+            opts += ["left-child", "right-child"]
+        i = self.choose(len(opts), f"parent({cell.cid})", opts)
+        if i == 0:
+            self._set_entry(cell, "parent", None)
+            return None
+        p = self.new_cell(cell.kinds, False, "ctx")
+        p.updepth = cell.updepth + 1
+        self._set_entry(p, "left" if i == 1 else "right", Node(cell.cid))
+        self._set_entry(cell, "parent", Node(p.cid))
+        return cell.entry["parent"]
 
     def _attr_kinds(self, f: str) -> Optional[frozenset]:
         if f == "value":
